@@ -40,6 +40,24 @@ NEEDS = {
  "C19-w2-1": ("ComputeNullables sorts rules by source line only", "two rules on one source line inside a nullability cycle, -support-left-recursion"),
  "C19-w2-2": ("RuleRefExpr.NullableVisit short-cuts on a Nullable flag left on the AST by an earlier build", "the same grammar value built twice in one process (library use), a nullability cycle, SupportLeftRecursion(true)"),
  "C19-w2-3": ("cleanupCharClassMatcher deduplicates through a map and ranges over it", "-optimize-grammar and a merged class that really contains a duplicate member"),
+ "C05-w3-1": ("parseThrowExpr takes one state snapshot and restores it after every failed recovery expression (a clone restored twice)", "throw/recover with state blocks, at least two nested handlers for one label whose two innermost recovery expressions both fail"),
+ "C05-w3-2": ("only the outermost lookahead predicate snapshots the state", "an & nested inside & or !, the inner expression matching and changing state, a block reading the state while still inside the outer predicate"),
+ "C05-w3-3": ("no snapshot for an empty state store (cloneState returns nil, restoreState(nil) returns)", "the store empty at the backtrack point (no InitState, e.g. an alternate Entrypoint that skips the seeding block)"),
+ "C11-w3-1": ("errList.dedupe keeps the last occurrence instead of the first", "an E1, E2, E1 pattern: a failing block in an alternative that is abandoned, another error, the same block again at the same position; Memoize(false)"),
+ "C11-w3-2": ("parseThrowExpr evaluates the recovery expression on an aliased, truncated recovery stack", "a recovery expression that itself enters a nested recovery operator, then a second throw of the same label (breaks C14 first: handlers are lost; the C11 checks see it as an unclaimed divergence from the model)"),
+ "C11-w3-3": ("addErrAt returns early when the last error has the same position and inner message, ignoring the rule", "the same error text from two different rules at the same position, recorded consecutively"),
+ "C13-w3-1": ("BasicLatinLookup walks the full unicode.SimpleFold orbit", "-optimize-basic-latin, an ignore-case class containing k or s (also inside a range)"),
+ "C13-w3-2": ("optimizer refuses to inline protected rules after setting r.optimized = true: the fix-point loop never ends", "-optimize-grammar plus a protected leaf rule (first rule or -alternate-entrypoints) referenced by a surviving rule"),
+ "C13-w3-3": ("a template comment refers to a field (.Optimized) that does not exist", "-support-left-recursion and -nolint together on a left-recursive grammar: text/template fails at execution, the builder panics"),
+ "C16-w3-1": ("leaf-matcher fast path in the optimized repetition loops without the budget comparison", "-optimize-parser and * or + directly over an empty literal"),
+ "C16-w3-2": ("error list capped at ten entries, which also drops the budget error", "non-UTF-8 input with at least ten invalid-encoding errors before the budget runs out, AllowInvalidUTF8(false)"),
+ "C16-w3-3": ("memoised rule replays charged to the budget with >= instead of >", "Memoize(true), a budget exactly equal to the expressions needed, the last unit of work being a memoised rule replay"),
+ "C18-w3-1": ("rules table lazily initialised at package level and published before it is filled", "two goroutines in their first Parse of the process at once (cold start)"),
+ "C18-w3-2": ("one-entry lookup cache for Unicode-class searches in the shared matcher node", "a \\p{..} class, non-ASCII input reaching the class search, concurrent parses with runes of different membership"),
+ "C18-w3-3": ("statistics key of a choice cached per node in a sync.Map although it contains the rule on top of the rule stack", "Statistics option, a choice inside a recovery expression, the same label thrown from two different rules by different parses; only Stats.ChoiceAltCnt keys differ"),
+ "C19-w3-1": ("cleanupCharClassMatcher rebuilds UnicodeClasses by ranging over a set when there is a duplicate", "-optimize-grammar, a merged class with a duplicated \\p class and at least two distinct classes"),
+ "C19-w3-2": ("removing a dead rule releases only one (map order) of the rules it referenced", "-optimize-grammar, a dead rule referencing at least two rules one of which is used by nothing else"),
+ "C19-w3-3": ("the re-entry guard of Rule.NullableVisit returns the Nullable flag left by a previous build", "the same AST built more than once in one process, -support-left-recursion, a directly left-recursive rule nullable through a later alternative"),
 }
 
 results = {}
